@@ -99,7 +99,7 @@ where
             /*@*/ proof { let e = Ev::Delete(old_range.start, (old_range.end - old_range.start) as usize, new_range.start); post_call(rel, r1, s, e, o0, n0, oc, nc, rs0); assert((t0 + s).push(e) =~= t0 + s.push(e)); s = s.push(e); oc = oc + (old_range.end - old_range.start);
             /*@*/     assert(alg_inv(*d, d0, t0, s, rel, rs0, o0, n0, oc, nc)); }
         }
-        /*@*/ proof { assert(oc == oe0 && nc == ne0); assert(seg(old, new, s, o0, n0, oe0, ne0)); }
+        /*@*/ proof { assert(oc == oe0 && nc == ne0); assert(seg(old, new, s, o0, n0, oe0, ne0)); if d0.relies() { lemma_seg_any(rel, r1, s, o0, n0, oe0, ne0, rs0); } lemma_run_fin::<D>(r1, rs0, s); }
         d.finish()?;
         return Ok(());
     } else if is_empty_range(&old_range) {
@@ -107,7 +107,7 @@ where
         d.insert(old_range.start, new_range.start, new_range.len())?;
         /*@*/ proof { let e = Ev::Insert(old_range.start, new_range.start, (new_range.end - new_range.start) as usize); post_call(rel, r1, s, e, o0, n0, oc, nc, rs0); assert((t0 + s).push(e) =~= t0 + s.push(e)); s = s.push(e); nc = nc + (new_range.end - new_range.start);
         /*@*/     assert(alg_inv(*d, d0, t0, s, rel, rs0, o0, n0, oc, nc)); }
-        /*@*/ proof { assert(oc == oe0 && nc == ne0); assert(seg(old, new, s, o0, n0, oe0, ne0)); }
+        /*@*/ proof { assert(oc == oe0 && nc == ne0); assert(seg(old, new, s, o0, n0, oe0, ne0)); if d0.relies() { lemma_seg_any(rel, r1, s, o0, n0, oe0, ne0, rs0); } lemma_run_fin::<D>(r1, rs0, s); }
         d.finish()?;
         return Ok(());
     }
@@ -126,7 +126,7 @@ where
         d.equal(old_range.start, new_range.start, old_range.len())?;
         /*@*/ proof { let e = Ev::Equal(old_range.start, new_range.start, (old_range.end - old_range.start) as usize); post_call(rel, r1, s, e, o0, n0, oc, nc, rs0); assert((t0 + s).push(e) =~= t0 + s.push(e)); s = s.push(e); oc = oc + (old_range.end - old_range.start); nc = nc + (old_range.end - old_range.start);
         /*@*/     assert(alg_inv(*d, d0, t0, s, rel, rs0, o0, n0, oc, nc)); }
-        /*@*/ proof { assert(oc == oe0 && nc == ne0); assert(seg(old, new, s, o0, n0, oe0, ne0)); }
+        /*@*/ proof { assert(oc == oe0 && nc == ne0); assert(seg(old, new, s, o0, n0, oe0, ne0)); if d0.relies() { lemma_seg_any(rel, r1, s, o0, n0, oe0, ne0, rs0); } lemma_run_fin::<D>(r1, rs0, s); }
         d.finish()?;
         return Ok(());
     }
@@ -228,7 +228,7 @@ where
         /*@*/     assert(alg_inv(*d, d0, t0, s, rel, rs0, o0, n0, oc, nc)); }
     }
 
-    /*@*/ proof { assert(oc == oe0 && nc == ne0); assert(seg(old, new, s, o0, n0, oe0, ne0)); }
+    /*@*/ proof { assert(oc == oe0 && nc == ne0); assert(seg(old, new, s, o0, n0, oe0, ne0)); if d0.relies() { lemma_seg_any(rel, r1, s, o0, n0, oe0, ne0, rs0); } lemma_run_fin::<D>(r1, rs0, s); }
     d.finish()
 }
 //@@ end
